@@ -3,6 +3,7 @@ package h
 import (
 	"fmt"
 	"runtime"
+	"strings"
 
 	gi "vws/gmarsi"
 	"vws/ref"
@@ -115,6 +116,9 @@ func (h *histState) checkReports(call string, strict bool, s *snap) {
 			gt = append(gt, cur)
 		case gi.WarriorWrite, gi.WarriorIncrement, gi.WarriorDecrement, gi.WarriorTaskTerminate, gi.WarriorTerminate:
 			if cur == nil {
+				if r.Type == gi.WarriorWrite && strings.HasPrefix(call, "SpawnWarrior") {
+					continue // naming the loaded cells one by one is allowed
+				}
 				v("effect reported outside any announced task: "+repTypeName(r.Type), map[string]any{"report": repStr(r)})
 				continue
 			}
